@@ -5,7 +5,7 @@ From Mca Require Import Mca.
 Import ListNotations.
 Definition gen_mca_facts : mca_facts := mkFacts
   [(1 # 10000)%Q; (1 # 10000)%Q; (1 # 10000)%Q; (1 # 10000)%Q]
-  [SObserve; SUnknown; SObserveIfNorm]
+  [SObserve; SObserve; SObserveIfNorm]
   [SReadOld; (SSetPar Up); SObserve; (SSetPar Down); SObserve; (SSetPar Back); SObserveIfNorm]
   [SReadOld; SSaveY0; SApplyY0; (SSetPar Up); SObserve; (SSetPar Down); SObserve; (SView 0); (SView 1); (SView 0); (SView 1); (SSetPar Back); SObserveIfNorm; (SViewIfNorm 2); (SViewIfNorm 2); SRestoreY0]
-  QuotUnknown.
+  QuotCentralRel.
